@@ -201,11 +201,38 @@ def worldgen(props):
     return 0 if bad == 0 else 2
 
 
+def twins(args):
+    """selftest twins <n> <seed> [first]: run n sequence-versus-alone twins of C15 on the current tree
+    (soundness soak of the twin oracle: every one must agree on a tree where the property holds)."""
+    import time as _t
+
+    from sim import worlds_a
+    from sim.props import SPECS
+
+    core.assert_flowjax_from_repo()
+    n, seed = int(args[0]), int(args[1])
+    first = int(args[2]) if len(args) > 2 else 0
+    spec = SPECS["C15"]
+    bad = 0
+    for k in range(first, first + n):
+        idx = worlds_a.TWIN_SLOT + worlds_a.TWIN_PERIOD * k
+        w = worlds_a.world_for("C15", "quick", seed, idx)
+        t0 = _t.time()
+        r = spec.run(w)
+        V, _P, _m = spec.oracle(w, r)
+        print(f"twin seed={seed} idx={idx} src={w['inner']['prop']} model={w['inner']['model'].get('kind')} {_t.time() - t0:.1f}s {'OK' if not V else 'DIFF ' + V[0]['detail'][:200]}", flush=True)
+        bad += bool(V)
+    print(f"twins: {n - bad}/{n} agree")
+    return 0 if not bad else 1
+
+
 def main(argv):
     if not argv:
         print(__doc__)
         return 2
     cmd, rest = argv[0], argv[1:]
+    if cmd == "twins":
+        return twins(rest)
     only = None
     if "--only" in rest:
         i = rest.index("--only")
